@@ -129,6 +129,26 @@ Theorem C09_natural_then_other_key_not_weak_order_refuted : exists u v w,
 Proof. exact (ex_intro _ [B "01"; B "z"] (ex_intro _ [B "1"; B "y"] (ex_intro _ [B "1"; B "z"] nat_chain_witness))). Qed.
 Print Assumptions C09_natural_then_other_key_not_weak_order_refuted.
 
+(* What still holds for sorts with natural-order keys on ALL inputs: the weak checker run on such outputs means a
+   permutation, groups contiguous in input order, key-less records last, and no group head strictly less than its
+   immediate predecessor (what insertion sort -- sort.SliceStable on at most 20 groups -- guarantees for any callback);
+   every output satisfying the full specification satisfies it. *)
+Theorem C09_check_sort_adj_sound : forall ks inp out,
+  check_sort_adj dinfer natsort_less ks inp out = true ->
+  Permutation out inp
+  /\ exists gs, Permutation gs (dkeys (sort_keyf ks) inp) /\ out = sort_output ks inp gs
+       /\ (forall pre g h post, gs = pre ++ g :: h :: post ->
+            less dinfer natsort_less (map snd ks) (head_vals ks inp h) (head_vals ks inp g) = false).
+Proof.
+  exact (fun ks inp out H => conj (sort_spec_adj_permutation dinfer natsort_less ks inp out (check_sort_adj_sound dinfer natsort_less ks inp out H))
+                                  (check_sort_adj_sound dinfer natsort_less ks inp out H)).
+Qed.
+Print Assumptions C09_check_sort_adj_sound.
+Theorem C09_sort_spec_implies_adjacent_spec : forall ks inp out,
+  sort_spec dinfer natsort_less ks inp out -> sort_spec_adj dinfer natsort_less ks inp out.
+Proof. exact (sort_spec_implies_adj dinfer natsort_less). Qed.
+Print Assumptions C09_sort_spec_implies_adjacent_spec.
+
 (* flag mapping: every descending flag is its ascending comparator with the arguments exchanged, including the
    deliberately inverted natural pair (-t selects NaturalDescendingComparator, which sorts ascending) *)
 Theorem C09_descending_flags_flip_ascending : forall a b,
@@ -170,3 +190,12 @@ Example C09_nonvacuous :
   /\ num_dom dinfer exact_dom (B "0x7ffffffffffffc00") /\ num_dom dinfer exact_dom (B "-12") /\ num_dom dinfer exact_dom (B "abc") /\ num_dom dinfer exact_dom (B "1e300")
   /\ flag_cmp dinfer natsort_less Fc (B "Pan") (B "pAN") = 0 /\ flag_cmp dinfer natsort_less Ft (B "a2") (B "a10") = -1.
 Proof. vm_compute. repeat split; try reflexivity; discriminate. Qed.
+(* the 3-cycle: the weak checker accepts the arrangement mlr prints for the input order 9, 1e20, 10 and the full one rejects every arrangement *)
+Definition cyc (l : list bytes) : list record := map (fun v => [(B "a", v)]) l.
+Example C09_nonvacuous_natural :
+  check_sort_adj dinfer natsort_less [(B "a", Ft)] (cyc [B "9"; B "100000000000000000000"; B "10"]) (cyc [B "100000000000000000000"; B "9"; B "10"]) = true
+  /\ check_sort_adj dinfer natsort_less [(B "a", Ft)] (cyc [B "9"; B "100000000000000000000"; B "10"]) (cyc [B "10"; B "9"; B "100000000000000000000"]) = false
+  /\ forallb (fun o => negb (check_sort dinfer natsort_less [(B "a", Ft)] (cyc [B "9"; B "100000000000000000000"; B "10"]) (cyc o)))
+       [[B "9"; B "10"; B "100000000000000000000"]; [B "9"; B "100000000000000000000"; B "10"]; [B "10"; B "9"; B "100000000000000000000"];
+        [B "10"; B "100000000000000000000"; B "9"]; [B "100000000000000000000"; B "9"; B "10"]; [B "100000000000000000000"; B "10"; B "9"]] = true.
+Proof. vm_compute. repeat split; reflexivity. Qed.
